@@ -260,6 +260,7 @@ func (s *session) version() *version {
 	s.vmu.Lock()
 	defer s.vmu.Unlock()
 	s.stVersion.incref()
+	verifAt("r.version", s.stVersion.id)
 	return s.stVersion
 }
 
